@@ -131,6 +131,9 @@ func runDateCase(rq *request) M {
 	case "to":
 		ev["s"] = f["s"]
 		src = "$toMillis(" + quoteJ(cpsToString(f["s"])) + ")"
+		if hasPic {
+			src = "$toMillis(" + quoteJ(cpsToString(f["s"])) + ", " + picArg + ")"
+		}
 	default:
 		ev["out"] = M{"o": "bad", "why": "unknown date function"}
 		return ev
